@@ -100,6 +100,9 @@ def mode_option_case(args, name='modeopt', spec=None):
     if got and got[-1] == '':
         got.pop()
     bad = [l for l in got if l not in lang]
+    if '-d' in args:
+        # --debug is documented as "prints out debugging info vs guesses": print_guess is switched off, nothing at all may reach stdout
+        n = 0
     if len(got) != n or bad:
         return [{'property': 'C09', 'kind': 'stdout-not-guess-stream', 'lines': len(got), 'limit': n, 'not_guesses': bad[:3],
                  'witness': {'mode_args': args}}]
